@@ -9,7 +9,7 @@ import (
 
 func init() {
 	register(&propCheck{id: "C05", needRoot: true, run: checkC05,
-		explanation: "Model assumed by the property: each physical batch write is atomic and ordered; the flusher may write between any two batch operations. Decided statically (necessary conditions under that model): (1) PASS — every success return of SaveVersion, DeleteVersionsTo, DeleteVersionsFrom, LoadVersionForOverwriting, the index build and Importer.Commit is reached with no batch mutation issued after the last commit call (otherwise the tail of one operation is flushed with the next one); callee summaries are verified, not assumed; (2) ORDER — visibility marker last: the root is appended to the list of new nodes after both subtrees, root writers are the last batch mutations before Commit in SaveVersion, the importer's root marker follows every node write and the latest version is published only after WriteSync succeeded; (3) ORDER — re-keying a shared root writes the new key before deleting the old one; (4) OWN — the only functions that issue a physical write are the commit points; the early flush inside the batch wrapper and the importer's 10 000-node flush are listed KNOWN FINDINGS (a cut there leaves a database that Load() rejects). NOT decided: whether the state at a given cut actually reopens to old or new — that needs executing recovery."})
+		explanation: "Model assumed by the property: each physical batch write is atomic and ordered; the flusher may write between any two batch operations. Decided statically (necessary conditions under that model): (1) PASS — every success return of SaveVersion, DeleteVersionsTo, DeleteVersionsFrom, LoadVersionForOverwriting, the index build and Importer.Commit is reached with no batch mutation issued after the last commit call (otherwise the tail of one operation is flushed with the next one); callee summaries are verified, not assumed; (2) ORDER — visibility marker last: the root is appended to the list of new nodes after both subtrees, root writers are the last batch mutations before Commit in SaveVersion, the importer's root marker follows every node write and the latest version is published only after WriteSync succeeded; (3) ORDER — re-keying a shared root writes the new key before deleting the old one; (4) OWN — the only functions that issue a physical write are the commit points; the early flush inside the batch wrapper and the importer's 10 000-node flush are listed KNOWN FINDINGS (a cut there leaves a database that Load() rejects); (5) DOM — every answer taken from the fast index is dominated by the `last updated <= queried version` / `version == latest` guard, which is what keeps index entries flushed by an interrupted commit invisible after the reopen at the previous version. NOT decided: whether the state at a given cut actually reopens to old or new — that needs executing recovery."})
 }
 
 type cleanAnalysis struct {
@@ -223,24 +223,7 @@ func checkC05(c *Ctx) {
 			c.anchorMissing("ORDER-root-last", "fewer than 3 root writers in SaveVersion")
 		}
 	}
-	// index build: the label that declares the index complete is queued after every fast node
-	if efc2, lab := l.Func("", "*MutableTree.enableFastStorageAndCommit"), l.Func("", "*nodeDB.SetFastStorageVersionToBatch"); efc2 == nil || lab == nil {
-		c.anchorMissing("ORDER-root-last", "enableFastStorageAndCommit / SetFastStorageVersionToBatch")
-	} else {
-		mutR := batchMutationReach(l)
-		commitP := predStatic(l.Func("", "*nodeDB.Commit"))
-		for _, in := range callsIn(efc2, predStatic(lab)) {
-			later := reachableAfter(in, func(x ssa.Instruction) bool {
-				cc := callCommon(x)
-				return cc != nil && !commitP(cc) && mutR.Instr(x)
-			}, func(x ssa.Instruction) bool { cc := callCommon(x); return cc != nil && commitP(cc) })
-			msg := ""
-			if len(later) > 0 {
-				msg = "after the index label was queued, " + l.calleeName(later[0]) + " at " + l.ipos(later[0]) + " queues more index entries: a flush in between persists a label that declares a partial index complete, and no later open rebuilds it"
-			}
-			c.decide("ORDER-root-last", "index build: label queued after every fast node", l.ipos(in), len(later) == 0, "the label is the last batch mutation before Commit", msg)
-		}
-	}
+	checkIndexLabelLast(c, "ORDER-root-last")
 
 	// (2c) importer
 	wn := l.Func("", "*Importer.writeNode")
@@ -270,6 +253,59 @@ func checkC05(c *Ctx) {
 	}
 
 	// ---- (3) re-key order
+	checkRekeyOrder(c)
+
+	// ---- (4) who issues physical writes
+	allowed := map[*ssa.Function]string{ndbCommit: "commit point", impCommit: "import commit point", bwfWrite: "batch wrapper", bwfWriteSync: "batch wrapper"}
+	for _, fn := range l.SrcFuncs {
+		if l.pkgPathOf(fn) != l.ModPath {
+			continue
+		}
+		for _, in := range callsIn(fn, predOr(isBatchWrite, predStatic(bwfWrite, bwfWriteSync))) {
+			key := l.fname(fn) + " issues " + l.calleeName(in)
+			if why, ok := allowed[fn]; ok {
+				c.ok("OWN-physical-write", key, l.ipos(in), why)
+				continue
+			}
+			c.bad("OWN-physical-write", key, l.ipos(in), "a physical write is issued inside a logical operation: a stop right after it leaves part of the operation durable")
+		}
+	}
+	// ---- (5) what hides index entries of an interrupted commit after the reopen
+	checkVersionGuard(c)
+	c.trust("each physical batch write is atomic and ordered (property's model)", "range over a slice visits elements in order")
+	_ = token.ADD
+}
+
+// checkIndexLabelLast (shared by C05, C07, C09): the label that declares the
+// fast index complete is the last batch mutation of the index build.
+func checkIndexLabelLast(c *Ctx, rule string) {
+	l := c.L
+	// index build: the label that declares the index complete is queued after every fast node
+	if efc2, lab := l.Func("", "*MutableTree.enableFastStorageAndCommit"), l.Func("", "*nodeDB.SetFastStorageVersionToBatch"); efc2 == nil || lab == nil {
+		c.anchorMissing(rule, "enableFastStorageAndCommit / SetFastStorageVersionToBatch")
+	} else {
+		mutR := batchMutationReach(l)
+		commitP := predStatic(l.Func("", "*nodeDB.Commit"))
+		for _, in := range callsIn(efc2, predStatic(lab)) {
+			later := reachableAfter(in, func(x ssa.Instruction) bool {
+				cc := callCommon(x)
+				return cc != nil && !commitP(cc) && mutR.Instr(x)
+			}, func(x ssa.Instruction) bool { cc := callCommon(x); return cc != nil && commitP(cc) })
+			msg := ""
+			if len(later) > 0 {
+				msg = "after the index label was queued, " + l.calleeName(later[0]) + " at " + l.ipos(later[0]) + " queues more index entries: a flush in between persists a label that declares a partial index complete, and no later open rebuilds it"
+			}
+			c.decide(rule, "index build: label queued after every fast node", l.ipos(in), len(later) == 0, "the label is the last batch mutation before Commit", msg)
+		}
+	}
+
+}
+
+// checkRekeyOrder (shared by C05, C04, C12): re-keying a shared root queues
+// the copy under the new key before it deletes the old key.
+func checkRekeyOrder(c *Ctx) {
+	l := c.L
+	c.rule("ORDER-rekey", "re-keying writes the new key before deleting the old", 1)
 	dv := l.Func("", "*nodeDB.deleteVersion")
 	snp := l.Func("", "*nodeDB.saveNodeFromPruning")
 	dfp := l.Func("", "*nodeDB.deleteFromPruning")
@@ -321,21 +357,4 @@ func checkC05(c *Ctx) {
 		}
 	}
 
-	// ---- (4) who issues physical writes
-	allowed := map[*ssa.Function]string{ndbCommit: "commit point", impCommit: "import commit point", bwfWrite: "batch wrapper", bwfWriteSync: "batch wrapper"}
-	for _, fn := range l.SrcFuncs {
-		if l.pkgPathOf(fn) != l.ModPath {
-			continue
-		}
-		for _, in := range callsIn(fn, predOr(isBatchWrite, predStatic(bwfWrite, bwfWriteSync))) {
-			key := l.fname(fn) + " issues " + l.calleeName(in)
-			if why, ok := allowed[fn]; ok {
-				c.ok("OWN-physical-write", key, l.ipos(in), why)
-				continue
-			}
-			c.bad("OWN-physical-write", key, l.ipos(in), "a physical write is issued inside a logical operation: a stop right after it leaves part of the operation durable")
-		}
-	}
-	c.trust("each physical batch write is atomic and ordered (property's model)", "range over a slice visits elements in order")
-	_ = token.ADD
 }
